@@ -48,6 +48,7 @@ void mc_observe(int slot, long value);
 int  mc_thread_create(void *(*fn)(void *), void *arg);      /* returns thread index */
 void mc_thread_join(int tid);
 int  mc_self(void);
+int  mc_is_free_running(void);                               /* 1 when linked with engine/mcfree.c (conformance pass on real glibc): model introspection is unavailable */
 long mc_exec_id(void);                                       /* unique per forked execution: use it in IPC names so that executions never see each other's leftovers */
 void mc_wait_all(void);                                      /* returns when every other thread (detached ones included) has finished */
 /* model introspection for oracles */
